@@ -41,6 +41,9 @@ pub enum Step {
     ResetThenAwait(u8, u8),
     /// poll sleep(a) once, then drop it
     PollOnceThenDrop(u8),
+    /// two sleeps with the identical deadline now + a registered by this task (the first one polled first); then the
+    /// first one is dropped (None) or reset to DURS[b] later (Some(b)) and the twin is awaited
+    TwinDrop(u8, Option<u8>),
     /// spawn a child task (joined) running the script
     Spawn(Vec<Step>),
     /// sleep(Duration::MAX): never completes
@@ -142,6 +145,35 @@ fn run_script(task: String, steps: Vec<Step>, inc: u8) -> std::pin::Pin<Box<dyn 
                     };
                     net::log(&task, k as i64, code);
                 }
+                Step::TwinDrop(a, reset) => {
+                    let mut s1 = Box::pin(sleep(du(d(a))));
+                    let s2 = sleep(du(d(a)));
+                    tokio::pin!(s2);
+                    let first = tokio::select! {
+                        biased;
+                        _ = &mut s1 => 1,
+                        _ = &mut s2 => 2,
+                        _ = std::future::ready(()) => 0,
+                    };
+                    match reset {
+                        Some(b) if first == 0 => {
+                            s1.as_mut().reset(SimTime::now() + du(d(a) + d(b) + 1_000_000));
+                            // registered again at its new deadline, then left behind
+                            let _ = tokio::select! {
+                                biased;
+                                _ = &mut s1 => 1,
+                                _ = std::future::ready(()) => 0,
+                            };
+                            s2.await;
+                            drop(s1);
+                        }
+                        _ => {
+                            drop(s1);
+                            s2.await;
+                        }
+                    }
+                    net::log(&task, k as i64, first);
+                }
                 Step::Spawn(script) => {
                     let name = format!("{task}.{k}");
                     current().try_join(tokio::spawn(run_script(name, script, inc)));
@@ -213,6 +245,7 @@ struct Flags {
     missed_tick: bool,
     forever: bool,
     restarted: bool,
+    twin_cancelled: bool,
 }
 
 fn model_script(task: &str, steps: &[Step], start: u128, out: &mut Vec<L>, deadlines: &mut Vec<u128>, fl: &mut Flags, inc: u8, shutdown: &mut Option<(u128, u128)>) -> bool {
@@ -327,6 +360,20 @@ fn model_script(task: &str, steps: &[Step], start: u128, out: &mut Vec<L>, deadl
                     leftover = Some(leftover.map_or(now + d(*a), |l: u128| l.min(now + d(*a))));
                 }
                 out.push((task.into(), k, code, now));
+            }
+            Step::TwinDrop(a, reset) => {
+                let t = now + d(*a);
+                let first = (d(*a) == 0) as i64;
+                fl.twin_cancelled = fl.twin_cancelled || d(*a) > 0;
+                note_wait(t, &leftover, fl);
+                deadlines.push(t);
+                now = t;
+                if let (Some(b), 0) = (reset, first) {
+                    // the reset timer stayed registered beyond the twin's deadline and is dropped now
+                    let t1 = t + d(*b) + 1_000_000;
+                    leftover = Some(leftover.map_or(t1, |l: u128| l.min(t1)));
+                }
+                out.push((task.into(), k, first, now));
             }
             Step::Spawn(script) => {
                 out.push((task.into(), k, 0, now));
@@ -544,6 +591,9 @@ pub fn run_case(case: &Case) -> Result<(bool, Vec<&'static str>), Failure> {
     if fl.forever {
         labels.push("far-future-sleep");
     }
+    if fl.twin_cancelled {
+        labels.push("twin-timer-of-same-deadline-cancelled");
+    }
     if fl.restarted {
         labels.push("module-restart");
     }
@@ -577,7 +627,7 @@ impl Prop for C05 {
     fn plan(tier: Tier) -> Plan {
         Plan {
             shards: tier.pick(4, 16),
-            cases_per_shard: tier.pick(1_500, 10_000),
+            cases_per_shard: tier.pick(1_500, 30_000),
             watchdog: StdDuration::from_secs(tier.pick(300, 3600)),
         }
     }
@@ -594,6 +644,7 @@ impl Prop for C05 {
             3 => (dur.clone(), dur.clone(), any::<bool>()).prop_map(|(a, b, r)| Step::Select(a, b, r)),
             2 => (dur.clone(), dur.clone()).prop_map(|(a, b)| Step::ResetThenAwait(a, b)),
             3 => dur.clone().prop_map(Step::PollOnceThenDrop),
+            2 => (dur.clone(), proptest::option::of(dur.clone())).prop_map(|(a, r)| Step::TwinDrop(a, r)),
         ];
         let max_steps = tier.pick(8, 14);
         let script = proptest::collection::vec(leaf.clone(), 0..max_steps);
